@@ -560,6 +560,42 @@ harnesses! {
     #[kani::unwind(24)]
     fn c08_ffi_cubic_line(nd) { ffi_line!(nd, PolynomialDegree::Cubic, 2.0, 28); }
 
+    // calls that need NO new input (output chunk smaller than the ratio): the history must still be
+    // shifted by the previous call's fill; Linear on the index line, instants uniformly 1/4 apart
+    #[kani::unwind(8)]
+    fn c08_ffo_tiny_chunk_line(nd) {
+        let mut r = FastFixedOut::<f64>::new(1.0, 4.0, PolynomialDegree::Linear, 2, 1).unwrap();
+        let mut st = new_stream!();
+        let mut tau = [0.0f64; 2];
+        let mut c = 0;
+        while c < 3 {
+            let (ok, _, n) = call_line::<_, _, 8, 2>(nd, &mut r, &mut st, &mut tau);
+            check!(ok && n == 2, "C03.ok[base]");
+            c += 1;
+        }
+        // six frames at ratio 1: instants -3..2
+        check!(tau[1] == 2.0, "C08.uniform_instants_from_start[base]");
+        let mut last = tau[1];
+        check!(r.set_resample_ratio(4.0, false).is_ok(), "C12.abs_iff[base]");
+        let mut okall = true;
+        let mut zero_need = false;
+        let mut c = 0;
+        while c < 4 {
+            if r.input_frames_next() == 0 { zero_need = true; }
+            let (ok, _, n) = call_line::<_, _, 8, 2>(nd, &mut r, &mut st, &mut tau);
+            check!(ok && n == 2, "C03.ok[base]");
+            unroll32!(j, 2, {
+                let d = tau[j] - (last + 0.25);
+                if !(d <= EPS && d >= -EPS) { okall = false; }
+                last = tau[j];
+            });
+            c += 1;
+        }
+        check!(okall, "C08.uniform_instants_tiny_chunk[base]");
+        check!(zero_need, "C08.harness_observed_zero_need_call[base]");
+        forget(r);
+    }
+
     // ------------------------------------------------------------- C08(b), blending degrees (thorough):
     // a cubic through the index positions is reproduced at the uniformly spaced instants
     #[kani::unwind(8)]
